@@ -567,6 +567,15 @@ func (r *round) activate(now time.Time) {
 		r.bound[e.spaces[s].pubHex] = o.Bound
 		r.offers = append(r.offers, o)
 	}
+	if rp.SetClass == "poisoned" {
+		// the hostile order: the proofs that do not verify are handed out before the genuine ones (the real keeper's order
+		// comes from map iteration: any order occurs)
+		sort.SliceStable(r.offers, func(a, b int) bool {
+			pa := r.offers[a].Kind == "bad-xp" || r.offers[a].Kind == "bad-ch"
+			pb := r.offers[b].Kind == "bad-xp" || r.offers[b].Kind == "bad-ch"
+			return pa && !pb
+		})
+	}
 	// target table from the qualities of the statement-eligible proofs (error-free, bound, verifying)
 	r.tail = new(big.Int).Lsh(big.NewInt(1), 200)
 	r.targets = make([]*big.Int, horizon)
